@@ -227,8 +227,10 @@ pub fn reoffence(seed: u64, pl: &Pool, rep: &mut Report) {
     rt.block_on(async {
         let mut rng = Rng::new(seed ^ 0x0FF2);
         let ban_ms = 20 + rng.below(30);
+        // bans of this node are timed (20-50 ms), or permanent (no duration configured)
+        let permanent = rng.chance(1, 3);
         let mut v = ServiceRig::start(&mut rng, ServiceCfg { mode: Mode::Ip4, local_enr_has_addr: true, tweak: Box::new(move |b| {
-            b.ban_duration(Some(std::time::Duration::from_millis(ban_ms)));
+            b.ban_duration(if permanent { None } else { Some(std::time::Duration::from_millis(ban_ms)) });
         }) }).await;
         let r_sk = signing_key(&mut rng);
         let r_addr = v4(10, 0, 0, 79, 9000);
@@ -245,6 +247,14 @@ pub fn reoffence(seed: u64, pl: &Pool, rep: &mut Report) {
         let dist_of = |e: &Enr| kb::log2(&r_id, &e.node_id().raw());
         let mut offences = 0;
         let mut log: Vec<Value> = Vec::new();
+        // the application may have put its own, short, ban on that peer's address earlier (a peer
+        // banned by id is not asked by lookups at all)
+        let user_ban = rng.chance(1, 2);
+        if user_ban {
+            let short = Some(std::time::Duration::from_millis(10 + rng.below(30)));
+            v.discv5.ban_ip(r_addr.ip(), short);
+            rep.count("reoffence_cases_with_an_earlier_ban_by_the_application");
+        }
         for round in 0..2 {
             let d = 256 - rng.below(3);
             let target = target_at(&r_id, d, &mut rng);
@@ -252,6 +262,7 @@ pub fn reoffence(seed: u64, pl: &Pool, rep: &mut Report) {
             v.settle().await;
             let msgs = v.take_handler_in();
             let Some((req_id, distances)) = find_request(&msgs, &r_id) else {
+                rep.count(if permanent { "reoffence_round_without_request_permanent" } else { "reoffence_round_without_request_timed" });
                 lookup.abort();
                 break;
             };
@@ -269,16 +280,18 @@ pub fn reoffence(seed: u64, pl: &Pool, rep: &mut Report) {
             // against that moment, not against "now", so that a stalled process cannot matter)
             let live = {
                 let l = ban_list_snapshot();
+                // ... and it lasts as long as configured: for ever, or (with 5 ms of slack for the
+                // time between delivery and the ban) the configured duration from this offence on
                 let ok = |e: Option<&Option<std::time::Instant>>| match e {
                     Some(None) => true,
-                    Some(Some(t)) => *t > t_before,
+                    Some(Some(t)) => !permanent && *t + std::time::Duration::from_millis(5) > t_before + std::time::Duration::from_millis(ban_ms),
                     None => false,
                 };
-                ok(l.ban_nodes.get(&NodeId::new(&r_id))) || ok(l.ban_ips.get(&r_addr.ip()))
+                ok(l.ban_nodes.get(&NodeId::new(&r_id))) && ok(l.ban_ips.get(&r_addr.ip()))
             };
             log.push(json!({"round": round, "requested_distances": distances, "listed_after": listed, "ban_in_force_after": live}));
             if !live {
-                rep.violation(if round == 0 { "C11:off-distance-responder-not-banned" } else { "C11:off-distance-responder-not-banned-again" }, format!("a responder returned an off-distance record ({}) and no ban is in force afterwards (listed: {listed})", if round == 0 { "first offence" } else { "second offence, after its first ban had run out" }), json!({"scenario_seed": seed.to_string(), "half": "reoffence", "ban_ms": ban_ms, "log": log}));
+                rep.violation(if round == 0 { "C11:off-distance-responder-not-banned" } else { "C11:off-distance-responder-not-banned-again" }, format!("a responder returned an off-distance record ({}) and no ban of the configured length (by id and by IP) is in force afterwards (listed: {listed})", if round == 0 { "first offence" } else { "second offence, after its first ban had run out" }), json!({"scenario_seed": seed.to_string(), "half": "reoffence", "ban_ms": ban_ms, "permanent": permanent, "earlier_ban_by_application": user_ban, "log": log}));
             }
             for _ in 0..20 {
                 let more = v.take_handler_in();
@@ -291,7 +304,14 @@ pub fn reoffence(seed: u64, pl: &Pool, rep: &mut Report) {
             lookup.abort();
             if round == 0 {
                 // let the ban run out on the wall clock; nothing purges the list meanwhile
-                std::thread::sleep(std::time::Duration::from_millis(ban_ms + 15));
+                if permanent {
+                    // a permanent ban does not run out: the second round needs the list cleared
+                    v.discv5.ban_node_remove(&NodeId::new(&r_id));
+                    v.discv5.ban_ip_remove(&r_addr.ip());
+                    std::thread::sleep(std::time::Duration::from_millis(25));
+                } else {
+                    std::thread::sleep(std::time::Duration::from_millis(ban_ms + 15));
+                }
             }
         }
         rep.evaluations += 1;
